@@ -21,14 +21,14 @@ func init() {
 		ID: "C12",
 		Meta: func(tier string) fw.Meta {
 			return fw.Meta{
-				Flavours: []string{"plain", "cover"},
+				Flavours: []string{"plain", "race", "cover"},
 				Blocks:   16,
 				Procs:    16,
 				Rule: "LIS/LNDS: every sequence over alphabet 4 x length <= 8, alphabet 3 x length <= 11 and alphabet 2 x length <= 13 (exhaustive), each under four comparators (natural -1/0/+1, reversed, a 'wide' comparator returning the difference a-b, and one returning MinInt/MaxInt); a structured family of two interleaved ascending runs with run lengths 1..70 and 2^k-1..2^k+1 up to 1024, plus random sequences up to 1500 (5000 thorough) with heavy duplication; " +
 					"LCS/LCSFunc: every pair over alphabet 2 x length <= 7 and alphabet 3 x length <= 5 (exhaustive) plus random pairs up to 300 of very different lengths. " +
-					"Checks: returned elements identify strictly increasing positions of the input (for LCS: of one input, and their values form a subsequence of the other), strict / non-strict order under the comparator used, length == quadratic reference, inputs unmodified. " +
+					"Checks: returned elements identify strictly increasing positions of the input (for LCS: of one input, and their values form a subsequence of the other), strict / non-strict order under the comparator used, length == quadratic reference, inputs unmodified; 8 goroutines call LIS/LNDS/LCS concurrently on unshared inputs (plain and under -race), a comparison callback that itself calls LIS (re-entrancy), and LCS instantiated with interface-typed elements. " +
 					"distinct = the input (enumerated without repetition; random by hash); non-trivial = the input has a repeated value (ties)",
-				Required:     []string{"lis_inputs", "lnds_inputs", "lcs_pairs", "wide_comparator_inputs", "reversed_comparator_inputs", "lcs_unequal_length_pairs", "structured_two_run_inputs"},
+				Required:     []string{"lis_inputs", "lnds_inputs", "lcs_pairs", "wide_comparator_inputs", "reversed_comparator_inputs", "lcs_unequal_length_pairs", "structured_two_run_inputs", "concurrent_calls", "reentrant_calls", "interface_element_cases"},
 				Exhaustive:   true,
 				Assumptions:  []string{"quadratic DP references for LIS/LNDS/LCS lengths"},
 				CoverPkgs:    []string{"github.com/creachadair/mds/slice"},
@@ -349,7 +349,151 @@ func c12count(a, maxLen int) int {
 	return n
 }
 
+// c12quiet verifies LIS/LNDS/LCS results without touching the Ctx (for use from goroutines).
+func c12quiet(vs []int, r *rand.Rand) string {
+	in := make([]pe, len(vs))
+	for i, v := range vs {
+		in[i] = pe{V: v, Pos: i}
+	}
+	cm := c12cmps[r.IntN(len(c12cmps))]
+	pcmp := func(a, b pe) int { return cm.f(a.V, b.V) }
+	for _, strict := range []bool{true, false} {
+		var out []pe
+		if strict {
+			out = slice.LISFunc(in, pcmp)
+		} else {
+			out = slice.LNDSFunc(in, pcmp)
+		}
+		for i, e := range out {
+			if e.Pos < 0 || e.Pos >= len(in) || in[e.Pos] != e {
+				return fmt.Sprintf("strict=%v input %v: output element %d is not an element of the input", strict, vs, i)
+			}
+			if i > 0 {
+				d := cm.f(out[i-1].V, e.V)
+				if out[i-1].Pos >= e.Pos || (strict && d >= 0) || (!strict && d > 0) {
+					return fmt.Sprintf("strict=%v comparator %s input %v: output %v is not an ordered subsequence", strict, cm.name, vs, out)
+				}
+			}
+		}
+		if want := refLIS(vs, cm.f, strict); len(out) != want {
+			return fmt.Sprintf("strict=%v comparator %s input %v: output length %d, optimum %d", strict, cm.name, vs, len(out), want)
+		}
+	}
+	return ""
+}
+
+func c12concurrent(c *fw.Ctx, base int) {
+	rounds := c.Pick(4, 40)
+	for k := 0; k < rounds; k++ {
+		if !c.Begin(base + k) {
+			continue
+		}
+		seed := c.Rng().Uint64()
+		// a warm-up call on an already sorted long input first (pooled scratch state, if any, is then in play)
+		warm := make([]int, 300+k)
+		for i := range warm {
+			warm[i] = i
+		}
+		slice.LNDS(warm)
+		slice.LIS(warm)
+		msg := concurrently(8, seed, func(g int, r *rand.Rand) string {
+			for i := 0; i < 120; i++ {
+				n := r.IntN(40)
+				if i%4 == 0 {
+					n = 256 + r.IntN(400) // long enough for any size-gated path
+				}
+				vs := c12random(r, n, []int{2, 3, 10, 1000}[r.IntN(4)])
+				if i%8 == 4 {
+					for j := range vs {
+						vs[j] = j / 2 // non-decreasing
+					}
+				}
+				if pr := c12quiet(vs, r); pr != "" {
+					return fmt.Sprintf("goroutine %d: %s", g, pr)
+				}
+				a, b := c12random(r, r.IntN(60), 3), c12random(r, r.IntN(60), 3)
+				got := slice.LCS(a, b)
+				if want, _ := lcsLen(a, b); len(got) != want || !isSubseq(got, a) || !isSubseq(got, b) {
+					return fmt.Sprintf("goroutine %d: LCS(%v, %v) = %v is not a common subsequence of optimal length %d", g, a, b, got, want)
+				}
+				c.Step()
+			}
+			return ""
+		})
+		c.Add("concurrent_calls", 8*120*3)
+		if msg != "" {
+			c.Fail(map[string]any{"phase": "8 goroutines calling LIS/LNDS/LCS on unshared inputs"}, "%s", msg)
+		}
+		// re-entrant use: the comparison function itself calls LIS on another input
+		inner := c12random(c.Rng(), 300, 50)
+		innerWant := refLIS(inner, c12cmps[0].f, true)
+		outer := c12random(c.Rng(), 300, 50)
+		bad := ""
+		out := slice.LISFunc(outer, func(a, b int) int {
+			if got := slice.LIS(append([]int(nil), inner...)); len(got) != innerWant && bad == "" {
+				bad = fmt.Sprintf("a LIS call made from inside a comparison function returned length %d, optimum %d", len(got), innerWant)
+			}
+			return c12cmps[0].f(a, b)
+		})
+		c.Add("reentrant_calls", 1)
+		if want := refLIS(outer, c12cmps[0].f, true); len(out) != want && bad == "" {
+			bad = fmt.Sprintf("LISFunc whose comparison function calls LIS returned length %d, optimum %d", len(out), want)
+		}
+		if bad != "" {
+			c.Fail(map[string]any{"phase": "re-entrant use from the comparison callback", "outer": outer, "inner": inner}, "%s", bad)
+		}
+	}
+}
+
+// c12anyElems: the comparable entry points instantiated with interface-typed
+// elements, one of which holds a value that can be compared with values of
+// other types but not hashed; results are compared with the int instantiation.
+func c12anyElems(c *fw.Ctx) {
+	vals := []any{"a", "b", 7, 2.5, []int{1}, struct{ X int }{3}}
+	r := c.Rng()
+	for k := 0; k < 200; k++ {
+		mk := func() ([]int, []any) {
+			n := r.IntN(7)
+			codes := make([]int, n)
+			out := make([]any, n)
+			for i := range codes {
+				codes[i] = r.IntN(len(vals))
+				out[i] = vals[codes[i]]
+			}
+			return codes, out
+		}
+		ca, a := mk()
+		cb, b := mk()
+		// the unhashable value (code 4) may occur in one input only, so that it is never compared with itself
+		for i, x := range cb {
+			if x == 4 {
+				cb[i], b[i] = 0, vals[0]
+			}
+		}
+		want, _ := lcsLen(ca, cb)
+		var got []any
+		ok, pv, stack := fw.Try(func() { got = slice.LCS(a, b) })
+		c.Add("interface_element_cases", 1)
+		if !ok {
+			c.FailKind("panic", map[string]any{"a_codes": ca, "b_codes": cb, "values": fmt.Sprint(vals)}, "LCS on interface-typed elements (one holds a slice, which is comparable with values of other types) panicked: %v\n%s", pv, stack)
+			return
+		}
+		if len(got) != want {
+			c.Fail(map[string]any{"a_codes": ca, "b_codes": cb}, "LCS on interface-typed elements returned %d elements, the int instantiation says %d", len(got), want)
+			return
+		}
+	}
+}
+
 func runC12(c *fw.Ctx) {
+	if c.Flavour == "race" {
+		c12concurrent(c, 1<<22)
+		return
+	}
+	c12concurrent(c, 1<<22)
+	if c.Block == 0 && c.Begin(1<<23) {
+		c12anyElems(c)
+	}
 	idx := 0
 	type space struct{ a, maxLen int }
 	spaces := []space{{4, 8}, {3, 11}, {2, 13}}
